@@ -14,7 +14,7 @@
    up to ring equality.  Division is `mul _ (inv _)` (field_theory's Fdiv_def), so no non-zero side conditions arise:
    the equations hold because model and code perform the same divisions. *)
 From Coq Require Import Ring Field ZArith QArith List Bool String Lia.
-From CG Require Import Scalar Exec.ExecQ Proofs.Alg.
+From CG Require Import Scalar Model.Vector Model.Point Model.Matrix Model.Angle Model.Quaternion Model.Euler Exec.ExecQ Proofs.Alg.
 Import ListNotations.
 
 (* integer constants: `cast(2)` is `ofQ O (2 # 1)` in the model; a rewrite of the code may compute `c + c` where the
@@ -75,6 +75,16 @@ Ltac sym_unfold :=
   cbv -[add sub mul div opp inv rem eqb ltb leb ofQ zero one
         sqrt sin cos tan asin acos atan atan2
         abs_diff_eq relative_eq ulps_eq default_epsilon default_max_relative default_max_ulps is_finite] in *.
+
+(* the same, but the functions that flatten a result record into the list of its components stay folded: a model
+   function that returns `if c then r1 else r2` then shows each test once instead of once per component, which keeps
+   the goal small while the tests are being resolved against the path conditions *)
+Ltac sym_unfold1 :=
+  cbv -[add sub mul div opp inv rem eqb ltb leb ofQ zero one
+        sqrt sin cos tan asin acos atan atan2
+        abs_diff_eq relative_eq ulps_eq default_epsilon default_max_relative default_max_ulps is_finite
+        v1_list v2_list v3_list v4_list p1_list p2_list p3_list m2_list m3_list m4_list
+        quat_sxyz quat_list euler_list] in *.
 
 (* a / b = a * inv b, everywhere *)
 Ltac sym_nodiv Fth :=
@@ -177,16 +187,73 @@ Ltac sym_asym Hasym O :=
       end
   end.
 
+(* ---- resolving the model's tests at the head of the goal without rewriting inside the (large) goal ----
+   After unfolding, the left-hand side is a cascade `if c1 then .. else if c2 ..`, possibly under the `match` of a
+   dispatcher wrapper (gopt / gpn / goo).  Each head test is decided from the path conditions by applying one of the
+   lemmas below; only the small goal `c = true/false` is rewritten. *)
+Lemma sym_if_true (X : Type) (c : bool) (a b r : X) : c = true -> a = r -> (if c then a else b) = r.
+Proof. intros -> E. exact E. Qed.
+Lemma sym_if_false (X : Type) (c : bool) (a b r : X) : c = false -> b = r -> (if c then a else b) = r.
+Proof. intros -> E. exact E. Qed.
+Lemma sym_optif_true (X Y : Type) (c : bool) (a b : option X) (f : X -> Y) (g r : Y) :
+  c = true -> match a with Some z => f z | None => g end = r ->
+  match (if c then a else b) with Some z => f z | None => g end = r.
+Proof. intros -> E. exact E. Qed.
+Lemma sym_optif_false (X Y : Type) (c : bool) (a b : option X) (f : X -> Y) (g r : Y) :
+  c = false -> match b with Some z => f z | None => g end = r ->
+  match (if c then a else b) with Some z => f z | None => g end = r.
+Proof. intros -> E. exact E. Qed.
+
+Ltac sym_conds_small Fth O T A := repeat (progress (repeat sym_cond Fth O T A; cbv beta iota)).
+
+(* prove `c = v` for a test c of the model from the path conditions *)
+Ltac sym_atom Fth O T A :=
+  sym_conds_small Fth O T A;
+  first
+  [ assumption
+  | match goal with
+    | H : eqb O _ _ = ?v |- eqb O _ _ = ?v => solve [ rewrite <- H; f_equal; sym_eq Fth O T ]
+    | H : ltb O _ _ = ?v |- ltb O _ _ = ?v => solve [ rewrite <- H; f_equal; sym_eq Fth O T ]
+    | H : leb O _ _ = ?v |- leb O _ _ = ?v => solve [ rewrite <- H; f_equal; sym_eq Fth O T ]
+    | H : is_finite A _ = ?v |- is_finite A _ = ?v => solve [ rewrite <- H; f_equal; sym_eq Fth O T ]
+    | H : abs_diff_eq A _ _ _ = ?v |- abs_diff_eq A _ _ _ = ?v => solve [ rewrite <- H; f_equal; sym_eq Fth O T ]
+    | H : relative_eq A _ _ _ _ = ?v |- relative_eq A _ _ _ _ = ?v => solve [ rewrite <- H; f_equal; sym_eq Fth O T ]
+    | H : ulps_eq A _ _ _ ?u = ?v |- ulps_eq A _ _ _ ?u = ?v => solve [ rewrite <- H; f_equal; sym_eq Fth O T ]
+    end ].
+Ltac sym_bool Fth O T A :=
+  lazymatch goal with
+  | |- andb _ _ = true => apply andb_true_intro; split; sym_bool Fth O T A
+  | |- andb _ _ = false => apply Bool.andb_false_iff; first [ left; solve [ sym_bool Fth O T A ] | right; solve [ sym_bool Fth O T A ] ]
+  | |- orb _ _ = true => apply Bool.orb_true_iff; first [ left; solve [ sym_bool Fth O T A ] | right; solve [ sym_bool Fth O T A ] ]
+  | |- orb _ _ = false => apply Bool.orb_false_iff; split; sym_bool Fth O T A
+  | |- negb _ = true => apply Bool.negb_true_iff; sym_bool Fth O T A
+  | |- negb _ = false => apply Bool.negb_false_iff; sym_bool Fth O T A
+  | |- _ => sym_atom Fth O T A
+  end.
+Ltac sym_head Fth O T A :=
+  lazymatch goal with
+  | |- (if _ then _ else _) = _ =>
+      first [ apply sym_if_true; [ solve [ sym_bool Fth O T A ] | ]
+            | apply sym_if_false; [ solve [ sym_bool Fth O T A ] | ] ]
+  | |- match (if _ then _ else _) with Some _ => _ | None => _ end = _ =>
+      first [ apply sym_optif_true; [ solve [ sym_bool Fth O T A ] | ]
+            | apply sym_optif_false; [ solve [ sym_bool Fth O T A ] | ] ]
+  end;
+  cbv beta iota.
+
 Ltac sym_tie Fth Hasym HQ O T A :=
   intros;
   repeat match goal with x := _ |- _ => subst x end;
-  sym_unfold;
+  sym_unfold1;
   (* values of toNat / toN on the constants that stand for concretely needed inputs *)
   try (progress (repeat match goal with
                         | H : ?f (ofQ O ?q) = ?v |- context [?f (ofQ O ?q)] => rewrite H
-                        end); sym_unfold);
+                        end); sym_unfold1);
   sym_ints (F_R Fth) HQ O;
   sym_asym Hasym O;
+  repeat sym_head Fth O T A;
+  repeat (progress (repeat sym_cond Fth O T A; cbv beta iota));
+  sym_unfold;
   repeat (progress (repeat sym_cond Fth O T A; cbv beta iota));
   first [ reflexivity | sym_split; sym_eq Fth O T ].
 
